@@ -7,6 +7,7 @@ import (
 
 	"github.com/cube2222/octosql/execution"
 	"github.com/cube2222/octosql/octosql"
+	"github.com/cube2222/octosql/physical"
 )
 
 func init() {
@@ -14,7 +15,7 @@ func init() {
 		r.OnlyProperty = "C29"
 		before := raceLogSize()
 		var what string
-		pick := r.Tape.Weighted(3, 2, 3, 2, 4, 2)
+		pick := r.Tape.Weighted(6, 4, 6, 4, 8, 4, 1)
 		if v := os.Getenv("VERIF_C29_SCENARIO"); v != "" {
 			pick = int(v[0] - '0') // diagnosis only
 		}
@@ -37,6 +38,9 @@ func init() {
 		case 5:
 			what = "JSON LOOKUP JOIN JSON: the outer file's batches pile up while its consumer waits for the shared parser pool"
 			nestedPoolScenario(r)
+		case 6:
+			what = "join stopped early (LIMIT / error) while an input still has more than a channel's worth of rows to deliver"
+			bigInputEarlyStopScenario(r)
 		}
 		if after := raceLogSize(); after > before {
 			report := raceLogTail(before)
@@ -167,7 +171,13 @@ func sharedStateScenario(r *Run) {
 		r.Infra("write: %v", err)
 		return
 	}
-	sql := "SELECT a.id, b.id FROM c29a.json a " + joinSQL + " c29b.json b ON a.g = b.g"
+	refA, refB := "c29a.json a", "c29b.json b"
+	if hdr.Chance(1, 3) {
+		// a LIMIT in each branch: two Limit nodes starting on the two input goroutines
+		refA = fmt.Sprintf("(SELECT * FROM c29a.json x LIMIT %d) a", 1+nA/2)
+		refB = fmt.Sprintf("(SELECT * FROM c29b.json y LIMIT %d) b", 1+nB)
+	}
+	sql := "SELECT a.id, b.id FROM " + refA + " " + joinSQL + " " + refB + " ON a.g = b.g"
 	if joinSQL == "JOIN" {
 		// every pattern operator on both sides: pushed below the join, both input goroutines use the shared pattern caches
 		sql += " WHERE a.s LIKE 'v%' AND b.s LIKE 'v%' AND a.s ~ '^v[0-9]+$' AND b.s ~ '^v[0-9]+$' AND a.s ~* '^V' AND b.s ~* '^V'"
@@ -361,5 +371,87 @@ func nestedPoolScenario(r *Run) {
 	}
 	if oc.Err != nil {
 		r.Violate("C29", "hang", attrs, "lookup join failed: %v", oc.Err)
+	}
+}
+
+// bigInputEarlyStopScenario: a stream/outer join over two scripted tables, one of them with more rows than
+// the join's input channel holds (10000), stopped early by LIMIT or by the small input's error. The
+// query must return; whatever goroutines it leaves behind is not the property's business.
+func bigInputEarlyStopScenario(r *Run) {
+	t := r.Tape
+	hdr := t.Block(8)
+	joinSQL := []string{"JOIN", "LEFT JOIN", "OUTER JOIN"}[hdr.Draw(3)]
+	nBig := []int{9000, 10001, 12000, 25000}[hdr.Draw(4)]
+	bothBig := hdr.Chance(1, 3)
+	stopByError := hdr.Chance(1, 3)
+	limit := 1 + hdr.Draw(3)
+	attrs := map[string]string{"scenario": "big_input_early_stop"}
+	sql := "SELECT l.k, l.id, r.id FROM sim.l l " + joinSQL + " sim.r r ON l.k = r.k"
+	if !stopByError {
+		sql += fmt.Sprintf(" LIMIT %d", limit)
+	}
+	r.Log("sql: %s; big=%d bothBig=%v stopByError=%v", sql, nBig, bothBig, stopByError)
+	r.Shape("bigstop", joinSQL, nBig, bothBig, stopByError, limit)
+	r.NonTrivial(true)
+	mkMsgs := func(n int) []Msg {
+		m := make([]Msg, n)
+		for i := range m {
+			m[i] = Msg{Kind: MsgRec, Values: []octosql.Value{intv(i), intv(i)}} // unique keys: one match per row
+		}
+		return m
+	}
+	ctl := NewCtl()
+	fields := []physical.SchemaField{{Name: "k", Type: octosql.Int}, {Name: "id", Type: octosql.Int}}
+	nSmall := 3
+	if bothBig {
+		nSmall = nBig
+	}
+	tables := map[string]*SimTable{
+		"l": {Fields: fields, TimeField: -1, NoRetractions: true, Source: func() execution.Node {
+			return &ScriptSource{Name: "L", Msgs: mkMsgs(nBig), Ctl: ctl, GateEvery: 3000}
+		}},
+		"r": {Fields: fields, TimeField: -1, NoRetractions: true, Source: func() execution.Node {
+			s := &ScriptSource{Name: "R", Msgs: mkMsgs(nSmall), Ctl: ctl, GateEvery: 3000}
+			if stopByError {
+				s.FinalErr = fmt.Errorf("sim: injected source failure")
+			}
+			return s
+		}},
+	}
+	// always optimised: unoptimised, an inner join is a cross product under a filter (10^8 pairs here)
+	planned, err := PlanSQL(bubbleCtx(), sql, tables, true)
+	if err != nil {
+		r.Infra("query did not plan: %v", err)
+		return
+	}
+	nOut := 0
+	produce := func(ctx execution.ProduceContext, rec execution.Record) error {
+		nOut++
+		return nil
+	}
+	var schedule []byte
+	ctl.OnRelease = func(key string) { schedule = append(schedule, key[0]) }
+	// one input at a time feeds the join (the other stays parked) until it has nothing left to release
+	choose := func(en []string) int {
+		if len(schedule) > 0 {
+			for i, k := range en {
+				if k[0] == schedule[len(schedule)-1] && t.Draw(10) != 0 {
+					return i
+				}
+			}
+		}
+		return t.Draw(len(en))
+	}
+	oc := RunGated(r, planned.Node, ctl, produce, func(execution.ProduceContext, execution.MetadataMessage) error { return nil }, choose, 100000)
+	r.Sched(string(schedule))
+	r.AddEvents(nOut)
+	if stopByError {
+		r.Fault("source_error")
+	} else {
+		r.Probe("early_stop_by_limit")
+	}
+	r.Log("run returned err=%v finished=%v deadlock=%v steps=%d outputs=%d", errString(oc.Err), oc.Finished, oc.Deadlock, oc.Steps, nOut)
+	if oc.Deadlock || !oc.Finished {
+		r.Violate("C29", "deadlock", attrs, "the query did not return after it had been stopped early (%s; %d rows still to deliver)", sql, nBig)
 	}
 }
